@@ -118,6 +118,12 @@ func (g *Gen) run() {
 	if fn.Blocks == nil {
 		return
 	}
+	if c.StructuralOnly {
+		li := loopsOf(fn)
+		fr.loopK = li.ord
+		g.structuralObs(fn, li)
+		return
+	}
 	g.runFrame()
 	// an `assert at <anchor>` whose anchor never occurred no longer binds to the code
 	for _, ga := range c.GhostAts {
